@@ -133,6 +133,35 @@ def check_select_lane_masks(ctx, F, sel, tag, rr, lo):
                    positive=True)
 
 
+def check_select_byte_search(ctx, F, sel, tag):
+    """Portable in-word select, the byte search: `_PS_OVERFLOW[rank + 1]` is added to a word whose byte k holds the number of ones in
+    bytes 0..=k (prefix sums: the byte-wise popcount multiplied by 0x0101..01, or summed up by a ladder of byte shifts); the
+    first byte whose sum exceeds the rank carries into bit 7.  Added to the byte-wise popcount itself -- the multiplication
+    performed only afterwards, for the relative rank -- the search finds the first byte that has more than `rank` ones of its own."""
+    for bi, t in sel.calls():
+        if callee_name(t).split("::")[-1] != "trailing_zeros" or not t["args"]:
+            continue
+        a = core(sel.term_of_operand(t["args"][0]))
+        if not (a[0] == "bin" and a[1] == "BitAnd"):
+            continue
+        for x_, c_ in ((a[2], a[3]), (a[3], a[2])):
+            if core(c_)[:2] != ("const", 0x8080808080808080):
+                continue
+            add = core(x_)
+            if not (add[0] == "bin" and add[1] == "Add"):
+                continue
+            for w_, o_ in ((add[2], add[3]), (add[3], add[2])):
+                if not any(y[0] == "constref" and y[1] == "bits::_PS_OVERFLOW" for y in subterms(o_)):
+                    continue
+                subs = list(subterms(w_))
+                mult = any((y[0] == "bin" and y[1] == "Mul") or (y[0] == "call" and y[1].split("::")[-1] in ("overflowing_mul", "wrapping_mul")) for y in subs)
+                ladder = len([y for y in subs if y[0] == "bin" and y[1] == "Shl" and core(y[3])[0] == "const" and isinstance(core(y[3])[1], int) and core(y[3])[1] % 8 == 0]) >= 3
+                ctx.ob("C17.R3.select-byte-search-over-prefix-sums", "bits::select" + tag, loc(t["sp"]), mult or ladder, "term-provenance",
+                       "the word the overflow pattern is added to is a prefix sum over bytes (multiplication by 0x0101..01: %s, shift ladder: %s)" % (mult, ladder),
+                       positive=True)
+                return
+
+
 def check_config(ctx, F, tag, cfg):
     # ---------------- R7 the helpers do not fail inside the domain their documentation states (interval interpretation, A12)
     if F.data["target"].get("overflow_checks"):
@@ -271,6 +300,7 @@ def check_config(ctx, F, tag, cfg):
                 ok2 = lo_max is not None and lo_max <= 255
             if ok2:
                 check_select_lane_masks(ctx, F, sel, tag, env2["rr"], lo)
+                check_select_byte_search(ctx, F, sel, tag)
             ok = ok1 and ok2
             detail = "_PS_OVERFLOW[%s] (rank < 64 by contract, table has 65 entries): %s; _SELECT_IN_BYTE[%s] (relative rank <= 7, table has 8*256 entries): %s" % (
                 tstr(i1) if i1 else "?", ok1, tstr(i2)[:70] if i2 else "?", ok2)
